@@ -48,3 +48,27 @@ def model_value(m, term):
         a = v.approx(20)
         return (a.numerator_as_long(), a.denominator_as_long())
     return str(v)
+
+
+def check_robust(constraints, split_vars=(), bound=None, timeout_ms=8000):
+    """default solver -> qfnia tactic -> case split on the values of the first bounded integer variable (each case is
+    again a solver query; 'unsat' only if every case is unsat).  Returns (verdict, model, seconds)."""
+    r, m, t = check(constraints, timeout_ms)
+    if r != 'unknown':
+        return r, m, t
+    r2, m2, t2 = check(constraints, timeout_ms * 2, tactic='qfnia')
+    t += t2
+    if r2 != 'unknown':
+        return r2, m2, t
+    if split_vars and bound is not None:
+        v = split_vars[0]
+        allunsat = True
+        for k in range(-bound, bound + 1):
+            rk, mk, tk = check_robust(list(constraints) + [v == k], split_vars[1:], bound, timeout_ms)
+            t += tk
+            if rk == 'sat':
+                return rk, mk, t
+            if rk != 'unsat':
+                allunsat = False
+        return ('unsat' if allunsat else 'unknown'), None, t
+    return 'unknown', None, t
